@@ -32,6 +32,7 @@ EXTENDS TrieNodes
 CONSTANTS Keys,        \* set of keys (sequences of bytes 0..255)
           Vals,        \* set of non-empty values (positive integers); 0 stands for the empty value
           MaxLevels,   \* candidate values of maxTrieLevelInMemory (>= 1)
+          RichKeys,    \* keys written with every value of Vals; the others only with the smallest one (bounds only)
           MaxCommits,  \* bound on the number of distinct committed roots (model checking only)
           Log(_, _)    \* how the observation variable is extended
 
@@ -120,10 +121,12 @@ RecreateEmpty ==
     /\ UNCHANGED <<db, roots, maxLevel>>
     /\ hist' = Log(hist, Rec("Recreate", [m |-> {}], [x |-> 0]))
 
+MinVal == CHOOSE v \in Vals : \A w \in Vals : v <= w
+ValsFor(k) == IF k \in RichKeys THEN Vals ELSE {MinVal}
 CommitAllowed == IF WillCommit THEN Cardinality(roots \cup {[h |-> HashOf(CommitResult.n), m |-> map]}) <= MaxCommits ELSE TRUE
 
 Next ==
-    \/ \E k \in Keys, v \in Vals \cup {0} : Update(k, v)
+    \/ \E k \in Keys : \E v \in ValsFor(k) \cup {0} : Update(k, v)
     \/ \E k \in Keys : DeleteKey(k) \/ Get(k)
     \/ RootHash
     \/ (CommitAllowed /\ Commit)
